@@ -161,6 +161,30 @@ TamperDetectedAtOwner ==
 \* each AS processes the header at most once per direction and CurrHF strictly grows per forwarded AS
 StepsBounded == Len(h) <= 4 * PTotal(ps) + 1
 
+(* ---- one-hop journey -------------------------------------------------------------- *)
+(* AS 1 originates a one-hop path (OneHopPath::new), advances the SegID at egress; AS 2    *)
+(* fills the second hop field (set_second_hop, SegID already advanced); the reply uses the *)
+(* reversed standard path (DpPath::try_reverse) and must verify at AS 2 and at AS 1.       *)
+OneHopVerifies ==
+  LET seg0 == {<<"segid", 9>>}
+      h1 == [id |-> 1, exp |-> 63, in |-> 0, eg |-> 11, ai |-> FALSE, ae |-> FALSE,
+             mac |-> Mac(Key(1), seg0, 1000, 63, 0, 11)]
+      h0 == [id |-> 2, exp |-> 0, in |-> 0, eg |-> 0, ai |-> FALSE, ae |-> FALSE, mac |-> <<"zero">>]
+      o1 == [inf |-> [id |-> 1, cd |-> TRUE, ts |-> 1000, sid |-> SymXor(seg0, h1.mac)], h1 |-> h1, h2 |-> h0]
+      o2 == OneHopSetSecondView(o1, 22, Key(2), TRUE)
+      back == OneHopToStdReversed(o2)
+      q0 == Encode(back.m)
+      V2(idx, hop, inf, st, en) == MacOk(Key(2), hop, inf)
+      V1(idx, hop, inf, st, en) == MacOk(Key(1), hop, inf)
+      VS0(idx) == TRUE
+      r1 == Ingress(q0, TRUE, V2, VS0)
+      r2 == Egress(r1.p, V2)
+      r3 == Ingress(r2.p, FALSE, V1, VS0)
+  IN /\ back.ok
+     /\ r1.k = "ok" /\ r1.act = "egress"
+     /\ r2.k = "ok"
+     /\ r3.k = "ok" /\ r3.act = "local"
+
 (* ------------------------------ generation --------------------------------- *)
 Terminal == phase = "failed" \/ (phase = "delivered" /\ (dir = "back" \/ tm.f # "none"))
 Case == [pieces |-> ps, tamper |-> tm, owner |-> Owner(ps, tm), nas |-> NAs(ps),
